@@ -19,6 +19,13 @@ EXACT = [
     ("negmul_div", "(i - 4) / 4 + 1", 0, 9, 1),
     ("negmul_div2", "(2 * i - 8) / 2 + 4", 0, 6, 1),
     ("negmul_mod", "(i - 6) % 3 + (i - 6) / 3 + 2", 0, 9, 1),
+    # a constant outside [0, d) that a non-zero lower bound (or a negative coefficient) brings back into [0, d)
+    ("cshift_div", "(i - 3) / 4 + 1", 3, 7, 1),
+    ("cshift_div2", "(5 - i) / 4 + 1", 2, 5, 1),
+    ("cshift_div3", "(4 * j + i - 2) / 4 + 1", 2, 6, 3),
+    ("cshift_div4", "(i + 9) / 4", 3, 7, 1),
+    ("cshift_mod", "(i - 3) % 4 + (i - 3) / 4", 3, 7, 1),
+    ("cshift_mod2", "(4 * j + i - 2) % 4 + (i + 6) % 4", 2, 6, 3),
     # quotient / remainder of a scaled sum: the divisor factors in several ways
     ("pair_8_16", "(8 * i + j) / 16", 0, 4, 8),
     ("pair_2_8", "(2 * i + j) / 8", 0, 8, 2),
